@@ -221,6 +221,48 @@ CHECKS = {
             "DESIGN.md §3 C20"),
 }
 
+# what waves 10-14 of independently seeded changes added (appended to the level text)
+ADDED = {
+    "C01": " Long moves also from start accumulators constructed to end exactly at a step boundary; call "
+           "histories (siblings first, same call twice, after rejected calls under ambient precision 5) and "
+           "a fresh interpreter with low precision set before import.",
+    "C02": " Rows touching 2^31-1 / -2^31 at a chosen tick, boundary-directed accumulators for long moves, "
+           "call histories and the fresh low-precision interpreter as for C01.",
+    "C03": " Turn-directed family: reversing moves with start accumulators putting the total at the turning "
+           "tick 0..turn counts short of / past a step boundary; moveTimeLM must report 0 for cannot-move "
+           "requests; call histories as for C01.",
+    "C17": " Window-edge rows (turning point k/|jerk| of a tick inside the sampling window); call histories as for C01.",
+    "C04": " connect() against a pre-release of the minimum firmware must be refused.",
+    "C05": " Requests of 63/64/65/128 characters (bytes on the wire compared), bare line ends as empty reads, "
+           "RuntimeError as a fault, every request again under DEBUG logging; the restart-name exemption "
+           "covers command() only.",
+    "C06": " Pauses and moves repeated under DEBUG logging; gated helper pairs on re-plugged boards.",
+    "C07": " Command texts with braces / percent signs; a second board variant that acknowledges RB / BL, "
+           "in five spellings alone, before and between other requests.",
+    "C08": " The lattice in units of 2^-40 and 2^+-600; kept-and-edited bounds objects; dots well inside must "
+           "be accepted; 10368 slivers crossing an edge at 2^-38 / 2^-45 from parallel (an end may differ "
+           "from the exact crossing only by a stretch nowhere inside by more than the tolerance).",
+    "C09": " Creeping near-repeat lists at 2^20 / 2^30, the lists in units of 2^+-200, strict ties on exact "
+           "inputs, one vertex object at two positions.",
+    "C10": " One arch at flatness 2^-23 (2^16 pieces, 16 halvings in a row), needles, strict flatness for "
+           "dyadic flatness values, input lists of 255..1300 (4097) nodes.",
+    "C11": " Separator cases in units of 2^+-200 / 2^+-600; relative tolerance without floor; rejected calls "
+           "as conditioning.",
+    "C12": " Numeric-text, Decimal, Fraction and bool references; two real lxml documents per text next to the stub.",
+    "C13": " The geometry scaled by 2^+-200 and shifted by 2^50; 145 grids with whole-number cell widths and "
+           "queries bit-exactly on cell walls.",
+    "C14": " Queries through a kept list object; coordinates in tenths, beyond 2^53 and near 1.6e308; crowded "
+           "collections of 257..400 boxes.",
+    "C15": " Gate histories on one board and on re-plugged boards; error-line / foreign / pre-release banners; "
+           "every gated feature in every call form (quiet, keywords, other arguments) x 12 versions.",
+    "C16": " 27 nicknames incl. full-length padded ones and names containing 'err', compared after the write "
+           "and after the read-back.",
+    "C18": " Tolerances and probes at 2^-60; a kept bounds object edited between calls.",
+    "C19": " Port names that are prefixes of one another (COM1 / COM12); names beginning or ending with a blank.",
+    "C20": " Line-break tokens with parser-normalised expectations, patterns of 2^16 / 2^17 characters, every "
+           "half millisecond below 10 s.",
+}
+
 PENDING = "check not built yet in this revision (planned, see DESIGN.md §3); not claimed"
 
 
@@ -238,7 +280,8 @@ def main():
             "evidence_file": f"/verif/evidence/{pid}.json",
             "replay_cmd_template": f"./check {pid} --replay {{path}}",
             "engine": "mc",
-            "level_claimed": {"category": "model_checking", "text": text, "design_ref": ref},
+            "level_claimed": {"category": "model_checking", "text": text + ADDED.get(pid, ""),
+                              "design_ref": ref},
             "level_note": note,
             "technique": technique,
         })
